@@ -511,6 +511,8 @@ def replay(run, case):
         cls, detail = repl.parse_class(buf)
         if exc is not None or cls == "host":
             run.violation("repl-host:" + buf, f"repl-host-exception: {type(exc).__name__ if exc else detail} on {buf!r}", case)
+        elif cls in ("syntax", "ok") and len(prompts) == len(case["lines"]) + 1 and prompts[-1] == "+ ":
+            run.violation("repl-hang:" + buf, f"repl-continuation: the parser's verdict on {buf!r} is {cls}; the loop asks for more input", case)
         return
     res = _work([case["text"]])[0][1]
     judge(run, case["text"], res, case.get("origin", "replay"))
